@@ -36,7 +36,7 @@ theorem GoodSt.step {s s' : St} (h : GoodSt P env s) (hI : Inv P env s')
 
 theorem evalM_noCP {read : Nat → St → Res Fetched} (hR : ReadSpec P env read)
     (hT : ReadNoCP P env read) :
-    ∀ (ex : Expr) (s : St), (∀ c ∈ callees env ex, c < P.n) → GoodSt P env s →
+    ∀ (ex : Expr) (s : St), (∀ c ∈ allCallees ex, c < P.n) → GoodSt P env s →
       NoCP (evalM env read ex s) := by
   intro ex
   induction ex with
@@ -48,11 +48,11 @@ theorem evalM_noCP {read : Nat → St → Res Fetched} (hR : ReadSpec P env read
     cases hr : read k s with
     | error e' =>
       rw [hr] at h; injection h with h; subst h
-      exact hT k s (hc k (by simp [callees])) hG _ hr
+      exact hT k s (hc k (by simp [allCallees])) hG _ hr
     | ok res => obtain ⟨w, hs1, s1⟩ := res; rw [hr] at h; cases h
   | union a b iha ihb =>
     intro s hc hG err h
-    simp only [callees, List.mem_append] at hc
+    simp only [allCallees, List.mem_append] at hc
     simp only [evalM] at h
     cases ha : evalM env read a s with
     | error e' =>
@@ -70,7 +70,7 @@ theorem evalM_noCP {read : Nat → St → Res Fetched} (hR : ReadSpec P env read
       | ok res2 => obtain ⟨y, h2, s2⟩ := res2; rw [hb] at h; cases h
   | inter a b iha ihb =>
     intro s hc hG err h
-    simp only [callees, List.mem_append] at hc
+    simp only [allCallees, List.mem_append] at hc
     simp only [evalM] at h
     cases ha : evalM env read a s with
     | error e' =>
@@ -88,11 +88,31 @@ theorem evalM_noCP {read : Nat → St → Res Fetched} (hR : ReadSpec P env read
       | ok res2 => obtain ⟨y, h2, s2⟩ := res2; rw [hb] at h; cases h
   | ite i a b iha ihb =>
     intro s hc hG err h
-    simp only [callees] at hc
+    simp only [allCallees, List.mem_append] at hc
     simp only [evalM] at h
     split at h
-    · rename_i hi; rw [if_pos hi] at hc; exact iha s hc hG err h
-    · rename_i hi; rw [if_neg hi] at hc; exact ihb s hc hG err h
+    · exact iha s (fun c hc' => hc c (Or.inl hc')) hG err h
+    · exact ihb s (fun c hc' => hc c (Or.inr hc')) hG err h
+  | gate g a ihg iha =>
+    intro s hc hG err h
+    simp only [allCallees, List.mem_append] at hc
+    simp only [evalM] at h
+    cases hg : evalM env read g s with
+    | error e' =>
+      rw [hg] at h; injection h with h; subst h
+      exact ihg s (fun c hc' => hc c (Or.inl hc')) hG _ hg
+    | ok res =>
+      obtain ⟨x, h1, s1⟩ := res
+      rw [hg] at h
+      simp only at h
+      obtain ⟨hI1, hst1, hE1, _⟩ := evalM_spec P env hR g s x h1 s1 hG.inv hg
+      split at h
+      · cases ha : evalM env read a s1 with
+        | error e' =>
+          rw [ha] at h; injection h with h; subst h
+          exact iha s1 (fun c hc' => hc c (Or.inr hc')) (hG.step P env hI1 hst1 hE1) _ ha
+        | ok res2 => obtain ⟨y, h2, s2⟩ := res2; rw [ha] at h; cases h
+      · cases h
 
 theorem fetch_noCP (hRec : Recovering P) {exec : Nat → St → Res Fetched}
     (hX : ExecNoCP P env exec) : ReadNoCP P env (fetch P exec) := by
@@ -117,7 +137,62 @@ theorem fetch_noCP (hRec : Recovering P) {exec : Nat → St → Res Fetched}
           rw [fetch_exec P exec c s hp hf hst hc] at h
           exact hX c s hcn hG (by simpa using hst) hf hc err h
 
-theorem execute_noCP (hNF : NoFallback P) (hn : 8 * P.n < 200) (hW : P.Wf)
+/-- the head loop of a recovering program never panics with `cycle` / `propagated` (gates
+    allowed: the only other way out is the iteration limit). -/
+theorem loop_noCP (hNF : NoFallback P) (hW : P.Wf) {read : Nat → St → Res Fetched}
+    (hR : ReadSpec P env read) (hT : ReadNoCP P env read) (j : Nat) (hjn : j < P.n)
+    (rest : List Nat) :
+    ∀ (fuel stamp : Nat) (s : St), GoodSt P env s → s.stack = j :: rest →
+      NoCP (executeMaybeIterate P env read j fuel stamp s) := by
+  intro fuel
+  induction fuel with
+  | zero =>
+    intro stamp s _ _ err h
+    simp only [executeMaybeIterate] at h
+    injection h with h; subst h
+    exact ⟨(fun hc => nomatch hc), (fun hc => nomatch hc)⟩
+  | succ fuel ih =>
+    intro stamp s hG hst err h
+    cases hev : evalM env read (P.node j).body s with
+    | error e' =>
+      rw [emi_body_error P env _ j _ _ _ hev] at h
+      injection h with h; subst h
+      exact evalM_noCP P env hR hT _ _ (wf_allCallees P hW hjn) hG _ hev
+    | ok res =>
+      obtain ⟨v1, hs1, s1⟩ := res
+      obtain ⟨hI1, hst1, hE1, hrel⟩ := evalM_spec P env hR _ _ v1 hs1 s1 hG.inv hev
+      have hst1' : s1.stack = j :: rest := hst1.trans hst
+      cases hl : s1.prov.lookup j with
+      | none =>
+        cases hb : belowOf s1 with
+        | true => rw [emi_part P env _ j _ _ _ hev hl hb] at h; cases h
+        | false => rw [emi_final P env _ j _ _ _ hev hl hb] at h; cases h
+      | some last =>
+        cases hb : belowOf s1 with
+        | true => rw [emi_nested P env _ j _ _ _ hev hl hb] at h; cases h
+        | false =>
+          cases hcv : converged (cache1Of s1 j (cycleFn P j last v1)) s1.prov with
+          | true => rw [emi_conv P env _ j _ _ _ hev hl hb hcv] at h; cases h
+          | false =>
+            cases hi : IterationStamp.increment_iteration stamp with
+            | none =>
+              rw [emi_too P env _ j _ _ _ hev hl hb hcv hi] at h
+              injection h with h; subst h
+              exact ⟨(fun hc => nomatch hc), (fun hc => nomatch hc)⟩
+            | some stamp' =>
+              rw [emi_iter P env _ j _ _ _ hev hl hb hcv hi] at h
+              have hv1 : le v1 (lfp P env j) := by
+                rw [← lfp_step]
+                exact EvalRel.upper (fun c w hw => hI1.avail_le P env hw) hrel
+              have hnew : le (cycleFn P j last v1) (lfp P env j) :=
+                (cycleFn_bounds hNF j last v1).2 _ hv1 (hI1.provLe j last hl)
+              have hI2 := iterate_inv P env s1 j rest _ hI1 hst1' hnew (by rw [hl]; rfl)
+              have hG2 : GoodSt P env (stIter s1 j (cycleFn P j last v1)) :=
+                ⟨hI2, by show s1.poisoned = []; rw [hE1.poisoned]; exact hG.pois,
+                  by show ∀ x ∈ s1.stack, x < P.n; rw [hst1]; exact hG.bound⟩
+              exact ih stamp' _ hG2 hst1' err h
+
+theorem execute_noCP (hNF : NoFallback P) (hW : P.Wf)
     (hRec : Recovering P) : ∀ d, ExecNoCP P env (execute P env d) := by
   intro d
   induction d with
@@ -130,10 +205,7 @@ theorem execute_noCP (hNF : NoFallback P) (hn : 8 * P.n < 200) (hW : P.Wf)
     intro j s hjn hG hj hf hc err h
     unfold execute at h
     have hI := hG.inv
-    have hXd := execute_spec P env hNF d
-    have hR := fetch_spec P env hNF hXd
-    have hH := fetch_RH P env (execute_RH P env hNF d)
-    have hS := fetch_sim P env hNF hXd (execute_RH P env hNF d) (execute_sim P env hNF d)
+    have hR := fetch_spec P env hNF (execute_spec P env hNF d)
     have hIp := inv_push P env hI hj hf hc
     have hGp : GoodSt P env { s with stack := j :: s.stack } := by
       refine ⟨hIp, hG.pois, ?_⟩
@@ -141,47 +213,10 @@ theorem execute_noCP (hNF : NoFallback P) (hn : 8 * P.n < 200) (hW : P.Wf)
       cases hx with
       | head => exact hjn
       | tail _ hx => exact hG.bound x hx
-    have h' : executeMaybeIterate P env (fetch P (execute P env d)) j false (MAX_ITERATIONS + 1)
-        (IterationStamp.initial 0) { s with stack := j :: s.stack } = .error err := h
-    clear h
-    cases hev : evalM env (fetch P (execute P env d)) (P.node j).body
-        { s with stack := j :: s.stack } with
-    | error e' =>
-      rw [emi_body_error P env _ j false _ _ _ hev] at h'
-      injection h' with h'; subst h'
-      exact evalM_noCP P env hR (fetch_noCP P env hRec ih) _ _ (wf_callees P env hW hjn) hGp _ hev
-    | ok res =>
-      obtain ⟨v1, hs1, s1⟩ := res
-      obtain ⟨hI1, hst1, hE1, hrel⟩ := evalM_spec P env hR _ _ v1 hs1 s1 hIp hev
-      cases hl : s1.prov.lookup j with
-      | none =>
-        cases hb : belowOf false s1 with
-        | true => rw [emi_part P env _ j false _ _ _ hev hl hb] at h'; cases h'
-        | false => rw [emi_final P env _ j false _ _ _ hev hl hb] at h'; cases h'
-      | some last =>
-        cases hb : belowOf false s1 with
-        | true => rw [emi_nested P env _ j false _ _ _ hev hl hb] at h'; cases h'
-        | false =>
-          cases hcv : converged (cache1Of s1 j (cycleFn P j last v1)) s1.prov with
-          | true => rw [emi_conv P env _ j false _ _ _ hev hl hb hcv] at h'; cases h'
-          | false =>
-            have hi : IterationStamp.increment_iteration (IterationStamp.initial 0) = some 1 := by
-              decide
-            rw [emi_iter P env _ j false _ _ _ hev hl hb hcv hi] at h'
-            have hE : Ext s s1 := ⟨hE1.poisoned, hE1.final, hE1.prov, hE1.cache⟩
-            have hno : ¬ HeadOn s := by
-              apply not_headOn_of_not_below hE hst1
-              rw [belowOf_false] at hb
-              rw [hb]; exact fun h => nomatch h
-            obtain ⟨hc0, hp0⟩ := hI.empty hno
-            have hP := pass_first P env _ j s.stack hR hH hNF _ s1 v1 last hs1 hIp rfl hp0 hc0
-              hev hl hb
-            have hit : IterationStamp.iteration 1 = 1 := by decide
-            obtain ⟨v, hs, s', hok⟩ := loop_ok P env _ j s.stack hR hS hNF hn MAX_ITERATIONS 1
-              _ _ _ _ _ hP (by decide) (by decide) (by rw [hit]; omega)
-            rw [hok] at h'; cases h'
+    exact loop_noCP P env hNF hW hR (fetch_noCP P env hRec ih) j hjn s.stack _ _ _ hGp rfl err h
 
-theorem eval_noCP (hNF : NoFallback P) (hn : 8 * P.n < 200) (hW : P.Wf) (hRec : Recovering P)
+/-- recovering programs (gates allowed): no `panic cycle`, no `propagated`. -/
+theorem eval_noCP (hNF : NoFallback P) (hW : P.Wf) (hRec : Recovering P)
     {final : List (Nat × Nat)} (hdb : DbOk P env final) (j : Nat) (hj : j < P.n) (e : Panic)
     (h : eval P env final [] j = .error e) : e.cls ≠ .cycle ∧ e.cls ≠ .propagated := by
   unfold eval at h
@@ -190,11 +225,12 @@ theorem eval_noCP (hNF : NoFallback P) (hn : 8 * P.n < 200) (hW : P.Wf) (hRec : 
   | error e' =>
     rw [hf] at h
     injection h with h; subst h
-    exact fetch_noCP P env hRec (execute_noCP P env hNF hn hW hRec (P.n + 1)) j _ hj
+    exact fetch_noCP P env hRec (execute_noCP P env hNF hW hRec (P.n + 1)) j _ hj
       ⟨inv_init P env hdb [], rfl, fun x hx => nomatch hx⟩ _ hf
 
-/-- **total correctness** for recovering programs: the request returns a value. -/
-theorem eval_ok (hNF : NoFallback P) (hn : 8 * P.n < 200) (hW : P.Wf) (hRec : Recovering P)
+/-- **total correctness** for recovering gate-free programs: the request returns a value. -/
+theorem eval_ok (hNF : NoFallback P) (hG : P.NoGate) (hn : 8 * P.n < 200) (hW : P.Wf)
+    (hRec : Recovering P)
     {final : List (Nat × Nat)} (hdb : DbOk P env final) (j : Nat) (hj : j < P.n) :
     ∃ v s, eval P env final [] j = .ok (v, s) := by
   cases h : eval P env final [] j with
@@ -202,8 +238,8 @@ theorem eval_ok (hNF : NoFallback P) (hn : 8 * P.n < 200) (hW : P.Wf) (hRec : Re
   | error e =>
     exfalso
     have h1 := eval_fuel P env hW final [] j hj e h
-    have h2 := eval_noTM P env hNF hn hdb [] j e h
-    obtain ⟨h3, h4⟩ := eval_noCP P env hNF hn hW hRec hdb j hj e h
+    have h2 := eval_noTM P env hNF hG hn hdb [] j e h
+    obtain ⟨h3, h4⟩ := eval_noCP P env hNF hW hRec hdb j hj e h
     cases hc : e.cls with
     | cycle => exact h3 hc
     | tooManyIterations => exact h2 hc
